@@ -672,8 +672,7 @@ static void run_scenario(void) {
     if (eh) { size_t n = strcspn(eh + 3, ","); if (n >= sizeof(cfg_eh)) n = sizeof(cfg_eh) - 1; memcpy(cfg_eh, eh + 3, n); cfg_eh[n] = 0; }
     g_ops = ltv_tok + 2; g_nops = ltv_ntok - 2; g_op = 0;
 
-    bigbuf = malloc(BIGRESP);
-    memset(bigbuf, 'x', BIGRESP);
+    if (NULL == bigbuf) { bigbuf = malloc(BIGRESP); memset(bigbuf, 'x', BIGRESP); }
 
     server * const srv = g_srv = server_init();
     /* (LTV_LOG=1: keep the server's error log on stderr, for debugging a scenario by hand) */
@@ -791,6 +790,9 @@ static void op_sc(void) {
     fflush(stdout);
     int pfd[2];
     if (0 != pipe(pfd)) { puts("pipe-failed"); return; }
+    /* (the body of the big response is prepared once, before the fork: every scenario process reads
+     *  it copy-on-write instead of filling 16 MiB of its own) */
+    if (NULL == bigbuf) { bigbuf = malloc(BIGRESP); memset(bigbuf, 'x', BIGRESP); }
     const pid_t pid = fork();
     if (0 == pid) {
         close(pfd[0]);
